@@ -35,6 +35,113 @@ func checkC03(e *Engine, r *Report) {
 	if fShared == nil || fReserved == nil || allocCPU == nil || reserve == nil || allocShared == nil || allocRes == nil || take == nil {
 		return
 	}
+	// ---- rule 1c: a pool with insufficient capacity loses the comparison before any other criterion ------------
+	if cs := r.Anchor(pkgTA, "policy.compareScores"); cs != nil && len(cs.Params) >= 7 {
+		which := func(recv ssa.Value) int {
+			w := 0
+			Origins(recv, func(v ssa.Value) bool {
+				var idx ssa.Value
+				switch x := v.(type) {
+				case *ssa.Lookup:
+					idx = x.Index
+				case *ssa.Extract:
+					if lk, ok := x.Tuple.(*ssa.Lookup); ok {
+						idx = lk.Index
+					}
+				}
+				if idx == nil {
+					return false
+				}
+				Origins(idx, func(y ssa.Value) bool {
+					c, ok := y.(*ssa.Call)
+					if !ok || callObj(c.Common()) == nil || callObj(c.Common()).Name() != "NodeID" {
+						return false
+					}
+					Origins(callArgs(c)[0], func(z ssa.Value) bool {
+						if u, ok := z.(*ssa.UnOp); ok {
+							if ia, ok := u.X.(*ssa.IndexAddr); ok {
+								switch paramIndex(ia.Index) {
+								case 5:
+									w = 1
+								case 6:
+									w = 2
+								}
+							}
+						}
+						return w != 0
+					})
+					return true
+				})
+				return true
+			})
+			return w
+		}
+		normalK, _ := e.TypesPkg(pkgTA).Scope().Lookup("cpuNormal").(*types.Const)
+		reservedK, _ := e.TypesPkg(pkgTA).Scope().Lookup("cpuReserved").(*types.Const)
+		type scen struct {
+			name   string
+			class  *types.Const
+			vals   map[string][3]int64 // capacity accessor -> [_, value for pool 1, value for pool 2]
+			expect bool
+		}
+		scens := []scen{
+			{"shared-exhausted-2", normalK, map[string][3]int64{"IsolatedCapacity": {0, 0, 0}, "SharedCapacity": {0, 1, 0}}, true},
+			{"shared-exhausted-1", normalK, map[string][3]int64{"IsolatedCapacity": {0, 0, 0}, "SharedCapacity": {0, 0, 1}}, false},
+			{"isolated-short-2", normalK, map[string][3]int64{"IsolatedCapacity": {0, 0, -1}, "SharedCapacity": {0, 1, 1}}, true},
+			{"isolated-short-1", normalK, map[string][3]int64{"IsolatedCapacity": {0, -1, 0}, "SharedCapacity": {0, 1, 1}}, false},
+			{"reserved-short-2", reservedK, map[string][3]int64{"ReservedCapacity": {0, 0, -1}}, true},
+			{"reserved-short-1", reservedK, map[string][3]int64{"ReservedCapacity": {0, -1, 0}}, false},
+		}
+		for _, sc := range scens {
+			sc := sc
+			asm := func(cond ssa.Value) (bool, bool) {
+				b, ok := cond.(*ssa.BinOp)
+				if !ok {
+					return false, false
+				}
+				// class
+				if (b.Op == token.EQL || b.Op == token.NEQ) && (isConstEq(b.Y, normalK) || isConstEq(b.Y, reservedK)) {
+					return true, isConstEq(b.Y, sc.class) == (b.Op == token.EQL)
+				}
+				c, ok := b.X.(*ssa.Call)
+				if !ok || callObj(c.Common()) == nil || !isConstInt(b.Y, 0) {
+					return false, false
+				}
+				vals, have := sc.vals[callObj(c.Common()).Name()]
+				w := which(callArgs(c)[0])
+
+				if !have || w == 0 {
+					return false, false
+				}
+				x := vals[w]
+				switch b.Op {
+				case token.LSS:
+					return true, x < 0
+				case token.LEQ:
+					return true, x <= 0
+				case token.GTR:
+					return true, x > 0
+				case token.GEQ:
+					return true, x >= 0
+				case token.EQL:
+					return true, x == 0
+				case token.NEQ:
+					return true, x != 0
+				}
+				return false, false
+			}
+			p := FindPath(PathQuery{Fn: cs, Assume: asm, Target: func(in ssa.Instruction) bool {
+				ret, ok := in.(*ssa.Return)
+				if !ok {
+					return false
+				}
+				k, isK := ret.Results[0].(*ssa.Const)
+				return !isK || k.Value == nil || (k.Value.ExactString() == "true") != sc.expect
+			}})
+			r.Check("R2:insufficient-pool-loses#"+sc.name, "R2 eligibility table", "in the pool ranking a pool without the needed capacity (shared capacity exhausted at 0, isolated or reserved capacity short) loses against one that has it, before any other criterion is consulted", e.Pos(cs.Pos()), cs, p == nil,
+				"scenario "+sc.name+": "+e.pathString(p), true)
+		}
+	}
 	// ---- rule 1b: an admitted fraction is entered in the ledger ------------------------------------------
 	for _, t := range []struct {
 		f        *types.Var
@@ -650,9 +757,9 @@ func checkC03(e *Engine, r *Report) {
 				case *ssa.Phi, *ssa.Convert:
 					return false
 				case *ssa.Call:
-					if o := callObj(x.Common()); o != nil && (o.Name() == "SharedPortion" || o.Name() == "ReservedPortion") && paramIndex(callArgs(x)[0]) == 1 {
+					if ns := portionCall(x, 0); ns != nil && len(callArgs(x)) > 0 && paramIndex(callArgs(x)[0]) == 1 {
 						any = true
-						srcs = append(srcs, o.Name())
+						srcs = append(srcs, ns...)
 						return true
 					}
 				case *ssa.BinOp:
@@ -680,6 +787,66 @@ func checkC03(e *Engine, r *Report) {
 				return true
 			})
 			r.Check("R5:shares-amount", "data-flow cpu.shares", "the encoded amount is the grant's portion, or 1000 per exclusive CPU when there is no portion", e.InstrPos(c), ag, okSrc && any, fmt.Sprint(srcs), true)
+			// ... and it is the portion of the grant's own class: the reserved portion for a reserved-class
+			// grant, the shared portion for a normal one (a reserved grant has no shared portion: the amount
+			// would be 0 and the weight the minimum one).
+			for _, cl := range []struct{ cls, want, other string }{{"cpuNormal", "SharedPortion", "ReservedPortion"}, {"cpuReserved", "ReservedPortion", "SharedPortion"}} {
+				clsK, _ := e.TypesPkg(pkgTA).Scope().Lookup(cl.cls).(*types.Const)
+				if clsK == nil {
+					r.Undecided("R5:shares-amount-of-own-class#"+cl.cls, "data-flow cpu.shares under a class assumption", "class constant resolves", e.InstrPos(c), ag, "constant "+cl.cls+" not found")
+					continue
+				}
+				asm := func(v ssa.Value) (bool, bool) {
+					b, ok := v.(*ssa.BinOp)
+					if !ok || (b.Op != token.EQL && b.Op != token.NEQ) {
+						return false, false
+					}
+					k, isK := b.Y.(*ssa.Const)
+					if !isK || k.Value == nil || !types.Identical(k.Type(), clsK.Type()) {
+						return false, false
+					}
+					return true, isConstEq(b.Y, clsK) == (b.Op == token.EQL)
+				}
+				got := map[string]bool{}
+				var walk func(fn *ssa.Function, v ssa.Value, d int)
+				walk = func(fn *ssa.Function, v ssa.Value, d int) {
+					if d > 12 {
+						return
+					}
+					OriginsUnder(fn, v, asm, func(o ssa.Value) bool {
+						switch x := o.(type) {
+						case *ssa.Call:
+							ob := callObj(x.Common())
+							if ob != nil && (ob.Name() == "SharedPortion" || ob.Name() == "ReservedPortion") {
+								got[ob.Name()] = true
+								return true
+							}
+							// a repository helper computing the amount: its results, under the same class assumption
+							if callee := x.Common().StaticCallee(); callee != nil && callee.Pkg != nil && callee.Pkg.Pkg.Path() == pkgTA && len(callee.Blocks) > 0 {
+								for _, b := range callee.Blocks {
+									if ret, ok := lastInstr(b).(*ssa.Return); ok && len(ret.Results) > 0 && reachableBlock(callee, b, asm) {
+										walk(callee, ret.Results[0], d+1)
+									}
+								}
+							}
+							return true
+						case *ssa.UnOp:
+							if al, isAlloc := x.X.(*ssa.Alloc); isAlloc && x.Op == token.MUL {
+								for _, st := range reachingStores(al, x) {
+									if reachableBlock(fn, st.Block(), asm) {
+										walk(fn, st.Val, d+1)
+									}
+								}
+								return true
+							}
+						}
+						return false
+					})
+				}
+				walk(ag, ms.Common().Args[0], 0)
+				r.Check("R5:shares-amount-of-own-class#"+cl.cls, "data-flow cpu.shares under a class assumption", "the portion encoded in the CPU weight is the portion of the grant's own class (reserved portion for cpuReserved, shared portion for cpuNormal)", e.InstrPos(c), ag,
+					got[cl.want] && !got[cl.other], fmt.Sprintf("under cpuType == %s the amount derives from %v", cl.cls, sortedKeys(got)), true)
+			}
 		}
 		r.MinInstances("SetCPUShares in applyGrant", n, 1)
 		// the "1000 per exclusive CPU" replacement applies exactly when the portion is zero: with a non-zero portion the
@@ -712,7 +879,7 @@ func checkC03(e *Engine, r *Report) {
 				// the tested amount is the (phi of the) portion
 				isPortion := false
 				Origins(b.X, func(v ssa.Value) bool {
-					if c2, ok := v.(*ssa.Call); ok && callObj(c2.Common()) != nil && (callObj(c2.Common()).Name() == "SharedPortion" || callObj(c2.Common()).Name() == "ReservedPortion") {
+					if c2, ok := v.(*ssa.Call); ok && portionCall(c2, 0) != nil {
 						isPortion = true
 					}
 					return isPortion
@@ -740,4 +907,50 @@ func checkC03(e *Engine, r *Report) {
 			r.Check("R5:shares-exclusive-count-only-without-portion", "data-flow cpu.shares", "with a non-zero granted portion the CPU weight encodes that portion; 1000 per exclusive CPU is used only when the portion is zero", e.InstrPos(c), ag, !usesMul, "", true)
 		}
 	}
+}
+
+// portionCall: the grant-portion accessors a call yields — SharedPortion/ReservedPortion themselves, or a helper of the
+// topology-aware package each of whose results derives only from those accessors. nil when the call is not one.
+func portionCall(x *ssa.Call, depth int) []string {
+	ob := callObj(x.Common())
+	if ob != nil && (ob.Name() == "SharedPortion" || ob.Name() == "ReservedPortion") {
+		return []string{ob.Name()}
+	}
+	callee := x.Common().StaticCallee()
+	if callee == nil || depth > 3 || callee.Pkg == nil || callee.Pkg.Pkg.Path() != pkgTA || len(callee.Blocks) == 0 || len(callee.Blocks) > 16 {
+		return nil
+	}
+	ok, names := true, map[string]bool{}
+	for _, b := range callee.Blocks {
+		ret, isRet := lastInstr(b).(*ssa.Return)
+		if !isRet {
+			continue
+		}
+		if len(ret.Results) != 1 {
+			return nil
+		}
+		Origins(ret.Results[0], func(v ssa.Value) bool {
+			switch y := v.(type) {
+			case *ssa.Phi, *ssa.Convert:
+				return false
+			case *ssa.UnOp:
+				if _, isAlloc := y.X.(*ssa.Alloc); isAlloc {
+					return false
+				}
+			case *ssa.Call:
+				if ns := portionCall(y, depth+1); ns != nil {
+					for _, n := range ns {
+						names[n] = true
+					}
+					return true
+				}
+			}
+			ok = false
+			return true
+		})
+	}
+	if !ok || len(names) == 0 {
+		return nil
+	}
+	return sortedKeys(names)
 }
